@@ -73,8 +73,8 @@ def nontrivial(case):
     return 'jump' in ks or 'function' in ks
 
 
-def make_case(model, limit=60, dbg=False, globs=None, twice=True):
-    c = {'kind': 'script', 'model': model, 'globals': json.loads(json.dumps(globs or G0)), 'limit': limit, 'dbg': dbg}
+def make_case(model, limit=60, dbg=False, globs=None, twice=True, prerun=False):
+    c = {'kind': 'script', 'model': model, 'globals': json.loads(json.dumps(globs or G0)), 'limit': limit, 'dbg': dbg, 'prerun': prerun}
     return realrun.observe(c, twice=twice)
 
 
